@@ -1161,11 +1161,272 @@ def gen_fmt_cases(r):
     return dict(fmt=tpl[0], file=tpl[1], want=tpl[2], name=name, nid=nid, extra=extra)
 
 
+
+# ------------------------------------------------------------------------------------------------
+# zip containers on the WRITE side: info + binaries decoded from the archive
+# ------------------------------------------------------------------------------------------------
+def case_zipwrite(ctx, case):
+    """write_precomputed(NeuronList, '<…>.zip' | '<pattern>@<…>.zip', radius=…): the `info` inside the archive must declare
+    exactly the vertex attributes the binaries carry; every member decodes (independent Lean decoder) to what was written."""
+    r = random.Random(case['seed'])
+    k, radius, kindm = case['k'], bool(case['radius']), case.get('what', 'skel')
+    form = case.get('form', 'plain')        # 'plain' -> x.zip ; 'id' -> '{neuron.id}@x.zip' ; 'name_id' -> '{neuron.name}_{neuron.id}@x.zip'
+    ctx.count('zipwrite', f'{kindm},{form},radius={radius}')
+    items = []
+    ids_pool = r.sample(range(1, 99999), k)
+    for j in range(k):
+        if kindm == 'skel':
+            ids, parents, xyz, rad = gen_table(r, r.randint(1, case.get('n', 8)), r.choice(ID_CLASSES), r.randint(1, 2), r.random() < 0.5)
+            n = make_tn(ids, parents, xyz, rad, id=ids_pool[j], name=f'cell{"ABCDEFGH"[j]}', units=case.get('units_str', '8 nm'))
+            items.append((n, dict(parents=expected_parents(ids, parents), verts=[(f32(x), f32(y), f32(z)) for x, y, z in xyz],
+                                  attrs=[[f32(v) for v in rad]] if radius else [])))
+        else:
+            v, f = gen_mesh(r, r.randint(3, 8), r.randint(1, 6))
+            m = navis.MeshNeuron((v, f), id=ids_pool[j], name=f'cell{"ABCDEFGH"[j]}')
+            items.append((m, mesh_obs(m)))
+    nl = navis.NeuronList([n for n, _ in items])
+    with Tmp() as d:
+        zp = d / 'neurons.zip'
+        target = {'plain': str(zp), 'id': str(d / '{neuron.id}@neurons.zip'),
+                  'name_id': str(d / '{neuron.name}_{neuron.id}@neurons.zip')}[form]
+        kw = dict(radius=radius) if kindm == 'skel' else {}
+        st, e = outcome(lambda: navis.write_precomputed(nl, target, **kw))
+        if st == 'raise' or not zp.exists():
+            ctx.oracle(False, f'write_precomputed(NeuronList, {Path(target).name!r}) failed: {e!r}'[:200], case)
+            return
+        with zipfile.ZipFile(zp) as z:
+            members = z.namelist()
+            blobs = {m: z.read(m) for m in members}
+        want_names = [(f'{n.name}_{n.id}' if form == 'name_id' else f'{n.id}') for n, _ in items]
+        ctx.oracle(sorted(m for m in members if m != 'info') == sorted(want_names) and 'info' in members,
+                   f'zip members {members}, expected {want_names} + info', case)
+        try:
+            info = json.loads(blobs.get('info', b'{}').decode())
+        except Exception:
+            info = {}
+        if kindm == 'skel':
+            ctx.oracle(info.get('@type') == 'neuroglancer_skeletons', f'info (zip) @type = {info.get("@type")!r}', case)
+            ctx.oracle((info.get('vertex_attributes') == [RADIUS_ATTR]) if radius else ('vertex_attributes' not in info),
+                       f'info inside the zip archive: vertex_attributes = {info.get("vertex_attributes")!r} although the skeletons were '
+                       f'written with radius={radius}', case)
+            specs = info.get('vertex_attributes', [])
+        else:
+            ctx.oracle(info.get('@type') == 'neuroglancer_legacy_mesh', f'info (zip) @type = {info.get("@type")!r}', case)
+        for (n, want), nm in zip(items, want_names):
+            raw = blobs.get(nm)
+            if raw is None:
+                continue
+            if kindm == 'skel':
+                dec = parse_skel(ctx.ask(f'c14.dec_skel {specs_payload(specs)} | {raw.hex()}'))
+                ok = dec is not None and dict(parents=dec['parents'], verts=dec['verts'], attrs=dec['attrs']) == want
+                ctx.oracle(ok, f'independent decoder on zip member {nm!r} following the archive\'s info file: {_brief(dec)}; '
+                               f'written {len(want["verts"])} nodes with {len(want["attrs"])} attribute column(s)', case)
+            else:
+                ctx.oracle(parse_mesh(ctx.ask('c14.dec_mesh ' + raw.hex())) == want, f'independent mesh decoder on zip member {nm!r} differs', case)
+        # navis' own reader on the archive
+        fmt = '{name}_{id:int}' if form == 'name_id' else '{id:int}'
+        st, res = outcome(lambda: navis.read_precomputed(str(zp), fmt=fmt))
+        if st == 'raise' or len(res) != len(items):
+            ctx.oracle(False, f'read_precomputed(zip written by write_precomputed) failed: {res!r}'[:200], case)
+            return
+        byid = {x.id: x for x in res}
+        for n, want in items:
+            x = byid.get(n.id)
+            if x is None:
+                ctx.oracle(False, f'neuron {n.id} missing from the archive read (ids {sorted(byid)})', case)
+                continue
+            if kindm == 'skel':
+                t = tn_table(x, [RADIUS_ATTR] if (radius and 'radius' in x.nodes.columns) else [])
+                got = dict(parents=t['parents'], verts=t['verts'], attrs=t['attrs'])
+                if radius and got['attrs'] == [[0] * len(want['verts'])]:
+                    got['attrs'] = 'all-zero (not read)'
+                ctx.oracle(got == want, f'navis zip round trip (radius={radius}): parents/verts equal '
+                                        f'{got["parents"] == want["parents"]}/{got["verts"] == want["verts"]}, radii read back: '
+                                        f'{got["attrs"] == want["attrs"]}', case)
+            else:
+                ctx.oracle(mesh_obs(x) == want, 'navis zip round trip (mesh): vertices/faces differ', case)
+            if form == 'name_id':
+                ctx.oracle(x.name == n.name, f'name from archive member: {x.name!r} != {n.name!r}', case)
+
+
+# ------------------------------------------------------------------------------------------------
+# histories: read -> modify -> write again -> decode.  Readers attach state to the neuron (nrrd_header, origin, file,
+# pickled attributes); a later write must describe the neuron as it is NOW.
+# ------------------------------------------------------------------------------------------------
+def _rand_grid(r, shape, dt):
+    g = np.zeros(shape, dtype=dt)
+    for _ in range(r.randint(2, max(3, int(np.prod(shape)) // 2))):
+        g[tuple(r.randrange(s) for s in shape)] = r.randint(1, 100)
+    return g
+
+
+def case_history(ctx, case):
+    r = random.Random(case['seed'])
+    fmt = case['fmt']
+    u1, m1, n1 = VOX_UNITS[case['u1'] % len(VOX_UNITS)]
+    u2, m2, n2 = VOX_UNITS[case['u2'] % len(VOX_UNITS)]
+    ctx.count('history', fmt)
+    steps = case.get('steps', 1)
+    with Tmp() as d:
+        if fmt == 'nrrd_vox':
+            g1 = _rand_grid(r, (r.randint(2, 5), r.randint(2, 5), r.randint(2, 5)), r.choice(['uint8', 'uint16', 'float32']))
+            vx = navis.VoxelNeuron(g1, units=u1, id=3, name='vx')
+            navis.write_nrrd(vx, str(d / 'a0.nrrd'))
+            cur, want_g, want_m, want_n = None, g1, m1, n1
+            for i in range(steps):
+                st, cur = rd(lambda: navis.read_nrrd(str(d / f'a{i}.nrrd')))
+                if st != 'ok':
+                    ctx.oracle(False, f'history: read_nrrd failed at step {i}: {cur}', case)
+                    return
+                mod = case['mods'][i % len(case['mods'])]
+                if mod in ('units', 'both'):
+                    uu, want_m, want_n = (u2, m2, n2) if i % 2 == 0 else (u1, m1, n1)
+                    cur.units = uu
+                if mod in ('grid', 'both'):
+                    want_g = _rand_grid(r, (r.randint(2, 5), r.randint(2, 5), r.randint(2, 5)), r.choice(['uint8', 'int16', 'float32']))
+                    cur.grid = want_g
+                if mod == 'scale':      # arithmetic changes the voxel size
+                    cur = cur * 2
+                    want_m = tuple(2 * v for v in want_m)
+                navis.write_nrrd(cur, str(d / f'a{i + 1}.nrrd'))
+            data, hdr = nrrd.read(str(d / f'a{steps}.nrrd'))
+            sd = np.asarray(hdr.get('space directions', np.zeros((3, 3))), dtype=float)
+            ctx.oracle(data.shape == want_g.shape and np.array_equal(data, want_g) and data.dtype == want_g.dtype,
+                       f'history {case["mods"]}: independent NRRD decoder sees voxel data of an earlier state '
+                       f'(shape {data.shape}/{data.dtype} vs current {want_g.shape}/{want_g.dtype})', case)
+            ctx.oracle(sd.shape == (3, 3) and np.array_equal(sd, np.diag(want_m)) and list(hdr.get('space units', [])) == [want_n] * 3,
+                       f'history read_nrrd → {case["mods"]} → write_nrrd: header records space directions {np.diag(sd).tolist() if sd.ndim == 2 else sd.tolist()} '
+                       f'{hdr.get("space units")} but the neuron\'s current voxel size is {want_m} {want_n}', case)
+            st, back = rd(lambda: navis.read_nrrd(str(d / f'a{steps}.nrrd')))
+            ok = st == 'ok' and np.array_equal(back.grid, want_g) and \
+                tuple(float(v) for v in np.asarray(back.units_xyz.magnitude).reshape(-1)) == tuple(float(v) for v in want_m) and \
+                str(back.units_xyz.units) == want_n
+            ctx.oracle(ok, f'history read_nrrd → {case["mods"]} → write_nrrd → read_nrrd: units '
+                           f'{getattr(back, "units", None)} / grid differ from the neuron\'s current state ({want_m} {want_n})', case)
+        elif fmt == 'nrrd_dp':
+            pts = np.cumsum(np.array([[r.randint(1, 8) / 4, r.randint(-8, 8) / 4, r.randint(-8, 8) / 4] for _ in range(r.randint(6, 10))]), axis=0)
+            dp = navis.make_dotprops(pts, k=3)
+            dp.units = u1
+            navis.write_nrrd(dp, str(d / 'a0.nrrd'))
+            st, cur = rd(lambda: navis.read_nrrd(str(d / 'a0.nrrd'), output='dotprops'))
+            if st != 'ok':
+                ctx.oracle(False, f'history: read_nrrd(dotprops) failed: {cur}', case)
+                return
+            cur.units = u2
+            want_pts = np.asarray(cur.points)
+            navis.write_nrrd(cur, str(d / 'a1.nrrd'))
+            data, hdr = nrrd.read(str(d / 'a1.nrrd'))
+            sd = np.asarray(hdr.get('space directions', np.zeros((3, 3))), dtype=float)
+            ctx.oracle(np.array_equal(data[:, :3], want_pts) and np.array_equal(sd, np.diag(m2)) and list(hdr.get('space units', [])) == [n2] * 3,
+                       f'history read_nrrd(dotprops) → units={u2!r} → write_nrrd: header records {np.diag(sd).tolist()} {hdr.get("space units")} '
+                       f'instead of {m2} {n2}', case)
+            st, back = rd(lambda: navis.read_nrrd(str(d / 'a1.nrrd'), output='dotprops'))
+            ok = st == 'ok' and np.array_equal(back.points, want_pts) and \
+                tuple(float(v) for v in np.asarray(back.units_xyz.magnitude).reshape(-1)) == tuple(float(v) for v in m2)
+            ctx.oracle(ok, f'history (dotprops) read back units {getattr(back, "units", None)} instead of {m2} {n2}', case)
+        elif fmt == 'pre_skel':
+            ids, parents, xyz, rad = gen_table(r, r.randint(2, 9), 'seq1', 1, False)
+            n = make_tn(ids, parents, xyz, rad, id=21, units='8 nm')
+            (d / 'a').mkdir(); (d / 'b').mkdir()
+            navis.write_precomputed(n, str(d / 'a'), radius=True)
+            st, res = outcome(lambda: navis.read_precomputed(str(d / 'a')))
+            if st != 'ok' or len(res) != 1:
+                ctx.oracle(False, f'history: read_precomputed failed: {res}', case)
+                return
+            cur = res[0]
+            # modify: new units, move the nodes, reroute one edge, new id
+            cur.units = '16 nm'
+            nodes = cur.nodes.copy()
+            nodes['x'] = nodes['x'] + 0.5
+            if len(nodes) > 2:
+                nodes.loc[nodes.index[-1], 'parent_id'] = int(nodes.node_id.values[0])
+            cur = navis.TreeNeuron(nodes, id=22, units='16 nm')
+            navis.write_precomputed(cur, str(d / 'b'), radius=True)
+            info = json.loads((d / 'b' / 'info').read_text())
+            raw = (d / 'b' / '22').read_bytes() if (d / 'b' / '22').exists() else b''
+            t_ids = [int(v) for v in nodes.node_id.values]
+            t_par = [int(v) for v in nodes.parent_id.values]
+            want = dict(parents=expected_parents(t_ids, t_par),
+                        verts=list(zip(f32s(nodes.x.values), f32s(nodes.y.values), f32s(nodes.z.values))),
+                        attrs=[f32s(nodes.radius.values)])
+            dec = parse_skel(ctx.ask(f"c14.dec_skel {specs_payload(info.get('vertex_attributes', []))} | {raw.hex()}"))
+            ctx.oracle(dec is not None and dict(parents=dec['parents'], verts=dec['verts'], attrs=dec['attrs']) == want,
+                       f'history read_precomputed → modify → write_precomputed: independent decoder sees {_brief(dec)}, current parents {want["parents"]}', case)
+            tr = info.get('transform', [])
+            ctx.oracle(len(tr) == 12 and [tr[0], tr[5], tr[10]] == [16, 16, 16], f'history: info transform {tr} does not record the current 16 nm', case)
+        elif fmt == 'h5':
+            ids, parents, xyz, rad = gen_table(r, r.randint(2, 9), 'seq1', 1, False)
+            n = make_tn(ids, parents, xyz, rad, id=31, name='h', units='8 nm')
+            ser = bool(case.get('serialized', True))
+            navis.write_h5(n, str(d / 'a.h5'), serialized=ser, raw=not ser)
+            st, res = outcome(lambda: navis.read_h5(str(d / 'a.h5')))
+            if st != 'ok' or len(res) != 1:
+                ctx.oracle(False, f'history: read_h5 failed: {res}', case)
+                return
+            cur = res[0]
+            cur.units = '2 um'
+            nodes = cur.nodes.copy()
+            nodes['y'] = nodes['y'] + 0.25
+            cur.nodes = nodes
+            st, e = outcome(lambda: navis.write_h5(cur, str(d / 'b.h5'), serialized=False, raw=True))
+            if st == 'raise':
+                # the raw reader does not restore the name; a neuron whose name is None cannot be written
+                ctx.oracle(False, f'history read_h5 → write_h5: write raises {type(e).__name__}: {str(e)[:80]} (neuron.name = {cur.name!r})',
+                           case, signature='H5Writer.get_neuron_group/name=None/TypeError' if cur.name is None else None)
+                if cur.name is not None:
+                    return
+                cur.name = 'h'
+                if (d / 'b.h5').exists():
+                    (d / 'b.h5').unlink()
+                navis.write_h5(cur, str(d / 'b.h5'), serialized=False, raw=True)
+            with h5py.File(str(d / 'b.h5'), 'r') as f:
+                g = f.get('31/skeleton')
+                ok = g is not None and 'y' in g and np.array_equal(g['y'][:], nodes['y'].values) and \
+                    np.array_equal(g['parent_id'][:], nodes['parent_id'].values)
+                un = None if g is None else g.attrs.get('units_nm')
+            ctx.oracle(bool(ok), 'history read_h5 → modify → write_h5(raw): h5py sees node data of an earlier state', case)
+            ctx.oracle(un is not None and abs(float(np.asarray(un).reshape(-1)[0]) - 2000.0) <= 1e-3,
+                       f'history read_h5 → units=2 um → write_h5(raw): units_nm = {un!r}, expected 2000', case)
+        elif fmt == 'json':
+            ids, parents, xyz, rad = gen_table(r, r.randint(2, 9), 'sparse', 1, True)
+            n = make_tn(ids, parents, xyz, rad, id=41, name='j')
+            s1 = navis.write_json(n, None)
+            st, res = outcome(lambda: navis.read_json(s1))
+            if st != 'ok' or len(res) != 1:
+                ctx.oracle(False, f'history: read_json failed: {res}', case)
+                return
+            cur = res[0]
+            nodes = cur.nodes.copy()
+            nodes['z'] = nodes['z'] + 1.0
+            cur.nodes = nodes
+            cur.id = 42
+            s2 = navis.write_json(cur, None)
+            dd = json.loads(s2)[0]
+            nd = pd.DataFrame(json.loads(dd['_nodes']))
+            nd.index = nd.index.astype(int)
+            ctx.oracle(dd.get('id') == 42 and close_obs(df_obs(nd.sort_index(), NODE_COLS), df_obs(nodes, NODE_COLS)),
+                       'history read_json → modify → write_json: the JSON holds an earlier state of the neuron', case)
+        elif fmt == 'meshfile':
+            v, f = gen_mesh(r, r.randint(4, 8), r.randint(2, 6))
+            m = navis.MeshNeuron((v, f), id=51, name='m')
+            navis.write_mesh(m, str(d / 'a_51.ply'))
+            st, cur = rd(lambda: navis.read_mesh(str(d / 'a_51.ply'), fmt='{name}_{id:int}.ply'))
+            if st != 'ok':
+                ctx.oracle(False, f'history: read_mesh failed: {cur}', case)
+                return
+            cur.vertices = np.asarray(cur.vertices) + 0.5
+            want_v = np.asarray(cur.vertices, dtype=float)
+            navis.write_mesh(cur, str(d / 'b_52.ply'))
+            t = trimesh.load_mesh(str(d / 'b_52.ply'), process=False)
+            ctx.oracle(np.array_equal(np.asarray(t.vertices), want_v) and np.array_equal(np.asarray(t.faces), np.asarray(cur.faces)),
+                       'history read_mesh → move vertices → write_mesh: the file holds the vertices of an earlier state', case)
+
 # ------------------------------------------------------------------------------------------------
 RUNNERS = {'skel': case_skel, 'l2n': case_lean2navis, 'mesh': case_mesh, 'trunc_skel': case_trunc_skel,
            'trunc_mesh': case_trunc_mesh, 'bytesio': case_bytesio_policy, 'batch': case_batch,
            'nrrd_vox': case_nrrd_vox, 'nrrd_dp': case_nrrd_dp, 'json': case_json, 'h5': case_h5,
-           'h5_errors': case_h5_errors, 'meshfile': case_meshfile, 'fmt': case_fmt}
+           'h5_errors': case_h5_errors, 'meshfile': case_meshfile, 'fmt': case_fmt,
+           'zipwrite': case_zipwrite, 'history': case_history}
 
 
 def gen_cases(ctx):
@@ -1193,6 +1454,13 @@ def gen_cases(ctx):
     yield 'batch', dict(fmt='pre_skel', k=4, container='zip', errors='log', bad=[0, 2], how=['misaligned'], pattern='name_id', seed=15)
     yield 'batch', dict(fmt='pre_mesh', k=4, container='dir_sub', errors='ignore', bad=[3], how=['garbage'], pattern='name_id', seed=16)
     yield 'batch', dict(fmt='pre_skel', k=4, container='list', errors='log', bad=[1], how=['empty'], parallel=2, seed=17)
+    yield 'zipwrite', dict(k=2, radius=1, what='skel', form='plain', n=4, seed=18)
+    yield 'zipwrite', dict(k=2, radius=1, what='skel', form='id', n=4, seed=19)
+    yield 'zipwrite', dict(k=1, radius=0, what='skel', form='name_id', n=3, seed=20)
+    if nrrd:
+        yield 'history', dict(fmt='nrrd_vox', u1=3, u2=5, steps=1, mods=['units'], seed=21)
+        yield 'history', dict(fmt='nrrd_vox', u1=1, u2=3, steps=2, mods=['both', 'scale'], seed=22)
+        yield 'history', dict(fmt='nrrd_dp', u1=1, u2=3, steps=1, mods=['units'], seed=23)
     # --- precomputed skeletons
     for _ in range(ctx.budget(240, 1800)):
         n = r.choice([1, 2, 3, 5, 8, 13, 21, 40]) if ctx.quick() else r.choice([1, 2, 3, 5, 8, 21, 40, 120, 400])
@@ -1253,6 +1521,17 @@ def gen_cases(ctx):
         for _ in range(ctx.budget(9, 60)):
             k = r.randint(2, 4)
             yield 'h5_errors', dict(k=k, bad=r.randrange(k), seed=S())
+    # --- zip containers on the write side
+    for _ in range(ctx.budget(40, 450)):
+        yield 'zipwrite', dict(k=r.randint(1, 4), radius=r.randint(0, 1), what=r.choice(['skel', 'skel', 'skel', 'mesh']),
+                               form=r.choice(['plain', 'id', 'name_id']), n=r.choice([3, 8, 20]), seed=S())
+    # --- histories: read -> modify -> write -> decode
+    hf = (['nrrd_vox', 'nrrd_vox', 'nrrd_dp'] if nrrd else []) + ['pre_skel', 'json'] + (['h5'] if h5py else []) + (['meshfile'] if trimesh else [])
+    for _ in range(ctx.budget(60, 600)):
+        u1 = r.randrange(len(VOX_UNITS))
+        u2 = r.choice([u for u in range(len(VOX_UNITS)) if VOX_UNITS[u][1] != VOX_UNITS[u1][1]])
+        yield 'history', dict(fmt=r.choice(hf), u1=u1, u2=u2, steps=r.choice([1, 1, 2, 3]),
+                              mods=[r.choice(['units', 'grid', 'both', 'scale']) for _ in range(3)], serialized=r.randint(0, 1), seed=S())
     # --- mesh files
     if trimesh:
         for _ in range(ctx.budget(80, 600)):
@@ -1265,7 +1544,7 @@ def run(ctx):
     ctx.extra['rule'] = ('a case = (stream, parameters, seed): node table / mesh / grid / file batch regenerated from the seed; '
                          'streams: skel, l2n (Lean→navis), mesh, trunc_* (every byte offset of a small file), batch '
                          '(format × container × errors × corrupted subset × fmt pattern × parallel), nrrd_vox, nrrd_dp, json, h5, '
-                         'h5_errors, meshfile, fmt; every case is non-trivial except n=0 tables; distinct = distinct JSON digest')
+                         'h5_errors, meshfile, fmt, zipwrite (zip containers on the write side), history (read → modify → write → decode); every case is non-trivial except n=0 tables; distinct = distinct JSON digest')
     ctx.extra['assumptions'] = ['gzip / HDF5 / zip containers, pynrrd, h5py, trimesh, pandas.read_json are external: only the table level is checked there',
                                 'float32 values are opaque 32-bit patterns; generated coordinates are exactly representable']
     missing = [m for m, mod in (('pynrrd', nrrd), ('h5py', h5py), ('trimesh', trimesh)) if mod is None]
